@@ -5,16 +5,19 @@ spec/PTM.tla        groups of extra atoms (Components / AnchorsOf), candidate pl
                     preference for larger modifications (Better), REQUESTED modifications (atoms RepairGraph pre-labelled because
                     -modify / -nter / -cter asked for them: placed by name on exactly their atoms), `replace` of any attribute
                     (also to None), residues = (chain, resid, resname, insertion code), JudgeCall / JudgeRun, Note
+spec/PTMSmall.tla   the input domain of the exhaustive small-scope family
 spec/Trace_PTM.tla  TLC judges recorded runs of the real CanonicalizeModifications with identify_ptms interposed
 harness/c14_real.py generic projection of real Molecule / Modification objects, PDB editing, the martinize2 front end in-process
 
 Families (all judged by the same JudgeRun):
-  synthetic  peptide-like molecules of 1-4 residues carrying hand-flagged atoms against a library of 11 modifications: sub-patterns
+  synthetic  peptide-like molecules of 1-4 residues carrying hand-flagged atoms against a library of 12 modifications: sub-patterns
              of one another (PO < PHOS < PO3; only the larger fits), same elements / different connectivity (PHOS / OPH), a
              placement that must be undone (DIOL blocks OH + OPH), a ring in which OPH / PHOS are subgraphs but not induced
              ones, the same modification twice on one anchor, bridges over two and over THREE residues, two bridges on the same
              pair of residues, two bridges sharing one residue (atoms in the outer residues), renaming of anchors and of added
              atoms, atoms that match nothing, residues sharing a number (another chain, an insertion code) in one molecule
+  small      EXHAUSTIVE small scope (spec/PTMSmall.tla enumerates the inputs): every way of bonding 2 (thorough: 3) unexplained O / P
+             atoms to the CB atoms of two residues and to one another x every choice of <= 2 of 6 modifications
   requested  the same residues with a `modification` request (what AnnotateMutMod writes) taken through the REAL RepairGraph:
              requested atoms present under other names / partly present / absent (rebuilt), one or two requests per residue,
              an anchor renamed by `replace`, unrecognised atoms next to a request (RepairGraph drops them), unrequested
@@ -48,6 +51,7 @@ TEMPLATES = [
     {'name': 'DIOL', 'nodes': [('a', 'CB', 'C', False, ''), ('o1', 'OD1', 'O', True, ''), ('o2', 'OD2', 'O', True, '')], 'edges': [('a', 'o1'), ('a', 'o2')]},
     {'name': 'TRI', 'nodes': [('a', 'CB', 'C', False, ''), ('b', 'CB', 'C', False, ''), ('c', 'CB', 'C', False, ''), ('x', 'BX', 'B', True, '')],
      'edges': [('a', 'x'), ('b', 'x'), ('c', 'x')]},
+    {'name': 'THIOL', 'nodes': [('a', 'CB', 'C', False, ''), ('s', 'SG', 'S', True, '')], 'edges': [('a', 's')]},       # fits one side of a bridge, leaves the other anchor uncovered
     {'name': 'ABRIDGE', 'nodes': [('a', 'CA', 'C', False, ''), ('b', 'CA', 'C', False, ''), ('s', 'SE', 'Se', True, '')], 'edges': [('a', 's'), ('s', 'b')]},
 ]
 TNAMES = [t['name'] for t in TEMPLATES]
@@ -66,6 +70,7 @@ DECOR = {
     'oh-twice': ('CB', [('O', 'anchor'), ('O', 'anchor')]),          # DIOL, or OH twice: the larger is preferred
     'po3': ('CB', [('P', 'anchor'), ('O', 0), ('O', 0), ('O', 0)]),  # PO, PHOS are sub-patterns: only PO3 leaves nothing over
     'oh-oph': ('CB', [('O', 'anchor'), ('O', 'anchor'), ('P', 1)]),  # DIOL fits and must be undone: only OH + OPH cover the P
+    'thiol': ('CB', [('S', 'anchor')]),
     'ring': ('CB', [('O', 'anchor'), ('P', ['anchor', 0])]),         # CB-O-P-CB: OPH / PHOS are subgraphs but not INDUCED ones; OH + PO is the cover
 }
 # what may be REQUESTED on a residue (one anchor each; BRIDGE-like templates cannot be patched onto one reference block)
@@ -228,6 +233,52 @@ def make_requested_case(rng):
     return {'nodes': nodes, 'edges': edges, 'insertion': [nodes[i]['id'] for i in order]}, tsel, used
 
 
+# exhaustive small scope: the inputs are the states of spec/PTMSmall.tla
+SMALL_POOL = [t for t in TEMPLATES if t['name'] in ('OH', 'PO', 'OPH', 'PHOS', 'DIOL')] + [
+    {'name': 'OBRIDGE', 'nodes': [('a', 'CB', 'C', False, ''), ('b', 'CB', 'C', False, ''), ('o', 'OB', 'O', True, '')], 'edges': [('a', 'o'), ('o', 'b')]}]
+
+
+def small_case(inp):
+    """State of PTMSmall -> molecule description: atoms 1 / 2 of the model are CB of residue 1 / 2, the others are flagged."""
+    nodes, edges, byres, key = _peptide(random.Random(0), 2)
+    for n in nodes:
+        n['resid'] = 1 if n['id'] < byres[1]['N'] else 2
+    ids = {1: byres[0]['CB'], 2: byres[1]['CB']}
+    flagged = sorted(inp['el'])
+    for f in flagged:
+        ids[f] = key
+        key += 1
+    nb = {f: set() for f in flagged}
+    for a, b in inp['edges']:
+        edges.append([ids[a], ids[b]])
+        nb[b].add(a)
+        if a in nb:
+            nb[a].add(b)
+    resid = {}
+    for f in flagged:                                   # listed with the lowest residue its group is bonded to (1 when to none)
+        comp, todo = {f}, [f]
+        while todo:
+            for y in nb[todo.pop()]:
+                if y in nb and y not in comp:
+                    comp.add(y)
+                    todo.append(y)
+        anchors = {y for x in comp for y in nb[x] if y in (1, 2)}
+        resid[f] = min(anchors) if anchors else 1
+    for i, f in enumerate(flagged, 1):
+        nodes.append({'id': ids[f], 'resid': resid[f], 'chain': 'A', 'icode': '', 'name': 'X%d' % i, 'el': inp['el'][f], 'ptm': True})
+    return {'nodes': nodes, 'edges': edges, 'insertion': [n['id'] for n in nodes]}, [SMALL_POOL[i - 1] for i in sorted(inp['ts'])]
+
+
+def _small_chunk(states):
+    out = []
+    for inp in states:
+        mol_d, templates = small_case(inp)
+        e = run_real(mol_d, templates)
+        e.update({'family': 'small', 'used': ['small scope'], 'tnames': [t['name'] for t in templates], 'scenario': {'gen': [mol_d, [t['name'] for t in templates]]}})
+        out.append(e)
+    return out
+
+
 # ----------------------------------------------------------------------------------------------------------------------
 def build(mol_d, templates, repair=False):
     """Real objects: a force field holding the templates as Modification (and the residue as Block), the molecule."""
@@ -310,54 +361,103 @@ def _judge(shard):
         shutil.rmtree(work, ignore_errors=True)
 
 
-def judge_events(events, ev, vd, nshards=None):
+def _new_stats():
+    return {'runs': 0, 'groups_identified': 0, 'groups_removed': 0, 'requested_groups_identified': 0, 'runs_with_atoms_dropped_by_request': 0,
+            'atoms_dropped_by_request': 0, 'unjudged': {}, 'decorations': {}, 'identified': {}, 'verdicts': {}}
+
+
+def _summary(e, v, note):
+    """What the statistics need from one judged run (the run itself travels on only when it was rejected)."""
+    import hashlib
+    import json
+    ident, nid, nrm, nreq = {}, 0, 0, 0
+    for c in e['calls']:
+        if c['outcome'] == 'identified':
+            nid += 1
+        else:
+            nrm += 1
+        for s in c['cover']:
+            nm = e['templates'][s['t'] - 1]['name'] if s['t'] else '?'
+            req = any(s['t'] in e['mol']['nodes'][a - 1]['mods'] for a, _k in s['match'])
+            nm += ' (requested)' if req else ''
+            ident[nm] = ident.get(nm, 0) + 1
+            nreq += bool(req)
+    h = hashlib.sha1(json.dumps([e['mol'], e['templates']], sort_keys=True).encode()).hexdigest()[:16] if e['calls'] else None
+    rejected = v != 'ok' and not v.startswith('unjudged:')
+    sc = None
+    if rejected:
+        sc = {k: e[k] for k in e if k != 'final'}
+        sc['final_absent'] = [i for i, f in enumerate(e['final'], 1) if not f['present']]
+        sc['verdict'] = v
+    return {'family': e['family'], 'used': e['used'], 'verdict': v, 'note': note, 'identified': ident, 'n_identified': nid, 'n_removed': nrm, 'n_requested': nreq,
+            'hash': h, 'scenario': sc}
+
+
+def _account(sm, allstats, ev, vd):
+    stats = allstats.setdefault(sm['family'], _new_stats())
+    stats['runs'] += 1
+    ev.traces += 1
+    ev.evaluations += 1
+    v, note = sm['verdict'], sm['note']
+    for u in sm['used']:
+        stats['decorations'][u] = stats['decorations'].get(u, 0) + 1
+    for nm, k in sm['identified'].items():
+        stats['identified'][nm] = stats['identified'].get(nm, 0) + k
+    stats['groups_identified'] += sm['n_identified']
+    stats['groups_removed'] += sm['n_removed']
+    stats['requested_groups_identified'] += sm['n_requested']
+    if note.startswith('atoms-dropped-by-request'):
+        stats['runs_with_atoms_dropped_by_request'] += 1
+        stats['atoms_dropped_by_request'] += int(note.split(':')[1])
+    if sm['hash']:
+        ev.nontrivial.add(sm['hash'])
+    key = v.split(' atom=')[0]
+    stats['verdicts'][key] = stats['verdicts'].get(key, 0) + 1
+    if v.startswith('unjudged:'):
+        stats['unjudged'][v] = stats['unjudged'].get(v, 0) + 1
+    elif v != 'ok':
+        vd.violation('trace-rejected', sm['scenario'], '%s %s: %s' % (sm['family'], sm['used'], v))
+
+
+def judge_events(events, ev, vd, nshards=None, allstats=None):
+    """One round of TLC processes over events held by the caller (each gets its 'verdict'); statistics per family."""
     judged = [e for e in events if not e.get('frontend_failed')]
-    shards = common.chunks(judged, nshards or tlc.NCPU) if judged else []
+    big = [e for e in judged if len(e['mol']['nodes']) > 100]
+    rest = [e for e in judged if len(e['mol']['nodes']) <= 100]
+    bins = [[] for _ in range(min(len(big), max(1, (nshards or tlc.NCPU) // 2)))]          # large molecules: balanced over half of the processes
+    for e in sorted(big, key=lambda e: -len(e['mol']['nodes'])):
+        min(bins, key=lambda b: sum(len(x['mol']['nodes']) for x in b)).append(e)
+    shards = bins + (common.chunks(rest, max(1, (nshards or tlc.NCPU) - len(bins))) if rest else [])
     outs = []
     if shards:
-        with mp.Pool(len(shards)) as pool:
-            outs = pool.map(_judge, shards)
-    stats = {'groups_identified': 0, 'groups_removed': 0, 'requested_groups_identified': 0, 'runs_with_atoms_dropped_by_request': 0,
-             'atoms_dropped_by_request': 0, 'unjudged': {}, 'decorations': {}, 'identified_by_family': {}, 'verdicts': {}}
+        with mp.Pool(min(tlc.NCPU, len(shards))) as pool:
+            outs = pool.map(_judge, shards, chunksize=1)
+    allstats = {} if allstats is None else allstats
     for shard, (d, g, verdicts) in zip(shards, outs):
         ev.states += d
         ev.transitions += g
         for i, e in enumerate(shard, 1):
-            ev.traces += 1
-            ev.evaluations += 1
             v, note = verdicts.get(i, ('no-verdict', ''))
             if e['err']:
                 v = e['err']
             e['verdict'] = v
-            for u in e['used']:
-                stats['decorations'][u] = stats['decorations'].get(u, 0) + 1
-            fam = stats['identified_by_family'].setdefault(e['family'], {})
-            for c in e['calls']:
-                stats['groups_identified' if c['outcome'] == 'identified' else 'groups_removed'] += 1
-                for s in c['cover']:
-                    nm = e['templates'][s['t'] - 1]['name'] if s['t'] else '?'
-                    req = any(s['t'] in e['mol']['nodes'][a - 1]['mods'] for a, _k in s['match'])
-                    fam[nm + (' (requested)' if req else '')] = fam.get(nm + (' (requested)' if req else ''), 0) + 1
-                    stats['requested_groups_identified'] += bool(req)
-            if note.startswith('atoms-dropped-by-request'):
-                stats['runs_with_atoms_dropped_by_request'] += 1
-                stats['atoms_dropped_by_request'] += int(note.split(':')[1])
-            if e['calls']:
-                ev.nontrivial_case([e['mol'], e['templates']])
-            key = v.split(' atom=')[0]
-            stats['verdicts'][key] = stats['verdicts'].get(key, 0) + 1
-            if v.startswith('unjudged:'):
-                stats['unjudged'][v] = stats['unjudged'].get(v, 0) + 1
-            elif v != 'ok':
-                sc = {k: e[k] for k in e if k not in ('final',)}
-                sc['final_absent'] = [i for i, f in enumerate(e['final'], 1) if not f['present']]
-                vd.violation('trace-rejected', sc, '%s %s: %s' % (e['family'], e['used'], v))
+            _account(_summary(e, v, note), allstats, ev, vd)
     for e in events:
         if e.get('frontend_failed'):
-            ev.traces += 1
             e['verdict'] = e['err']
-            vd.violation('trace-rejected', {k: e[k] for k in e if k != 'final'}, '%s %s: %s' % (e['family'], e['used'], e['err']))
-    return stats
+            _account(_summary(e, e['err'], ''), allstats, ev, vd)
+    return allstats
+
+
+def _small_job(states):
+    """Small-scope inputs: real runs and their judgement in one worker; only summaries travel back (90 000 runs in thorough)."""
+    events = _small_chunk(states)
+    d, g, verdicts = _judge(events)
+    out = []
+    for i, e in enumerate(events, 1):
+        v, note = verdicts.get(i, ('no-verdict', ''))
+        out.append(_summary(e, e['err'] or v, note))
+    return d, g, out
 
 
 # ----------------------------------------------------------------------------------------------------------------------
@@ -376,7 +476,7 @@ def _real_cases(tier):
         # protonation states by atoms, alone and several, and atoms nothing explains
         dict(structure='sheet', edits=[['protonate', 'A:4', 'OE1', 'HE1']], mods=D, label='sheet GLU4-HE1'),
         dict(structure='helix', edits=[['protonate', 'A:4', 'OE2', 'HE2'], ['protonate', 'A:8', 'OE1', 'HE1'], ['strip-h', 'A:2', 'NZ', 1], ['halogen', 'A:6', 'CB'],
-                                       ['hydroxyl', 'A:7', 'CB']], mods=D, label='helix GLU-HE2 GLU-HE1 LYS-LSN + fluorine + hydroxyl'),
+                                       ['hydroxyl', 'A:6', 'CG1']], mods=D, label='helix GLU-HE2 GLU-HE1 LYS-LSN + fluorine and hydroxyl on ILE6 (two groups nothing explains in one residue)'),
         dict(structure='trpcage', edits=[['protonate', 'A:9', 'OD1', 'HD1'], ['strip-h', 'A:8', 'NZ', 2], ['halogen', 'A:2', 'CB']], mods=N,
              label='trpcage -nt ASP9-HD1, LYS8 with one hydrogen (no modification), fluorine'),
         dict(structure='hst5', edits=[['protonate', '3', 'ND1', 'HD1'], ['protonate', '16', 'OE2', 'HE2'], ['protonate', '1', 'OD2', 'HD2']], mods=D,
@@ -405,8 +505,8 @@ def _real_cases(tier):
         dict(structure='hst5', edits=[['phospho', '24', 'OH']], mods=D, label='hst5 phosphotyrosine on the requested C terminus'),
         dict(structure='hst5', edits=[['phospho', '24', 'OH']], mods=[], label='hst5 phosphotyrosine on the C terminus, nothing requested'),
         dict(structure='sheet', edits=[['phospho', 'A:5', 'OH'], ['phospho', 'A:10', 'OH']], mods=N, label='sheet two phosphotyrosines -nt'),
-        dict(structure='villin', edits=[['protonate', 'A:44', 'OD1', 'HD1'], ['protonate', 'A:46', 'OD2', 'HD2'], ['protonate', 'A:45', 'OE1', 'HE1'], ['strip-h', 'A:48', 'NZ', 1]], mods=D,
-             label='villin ASP-HD1 ASP-HD2 GLU-HE1 LYS-LSN'),
+        dict(structure='villin', edits=[['protonate', 'A:44', 'OD1', 'HD1'], ['protonate', 'A:46', 'OD2', 'HD2'], ['protonate', 'A:45', 'OE1', 'HE1']], mods=D,
+             label='villin (no hydrogens in the file) ASP-HD1 ASP-HD2 GLU-HE1'),
         dict(structure='villin', edits=[], mods=[['nter', 'NCAP-ter'], ['cter', 'CCAP-ter']], label='villin capped termini requested'),
         dict(structure='villin', edits=[], mods=[['LYS', 'LYS-HZ3'], ['GLU72', 'GLU-HE2'], ['ASP', 'ASP-HD2']] + N, label='villin -modify LYS:LYS-HZ3 GLU72:GLU-HE2 ASP:ASP-HD2 -nt'),
         dict(structure='helix', edits=[], mods=N, label='helix -nt'),
@@ -475,9 +575,9 @@ REAL_MUST_THOROUGH = ['TYRPHOS by atoms', 'NCAP-ter requested', 'CCAP-ter reques
 
 
 def run(tier, seed, ev, vd):
-    ev.rule = ('synthetic: peptide-like molecules of 1-4 residues with 0-2 decorations per residue from 14 kinds (explainable, sub-pattern, same '
+    ev.rule = ('synthetic: peptide-like molecules of 1-4 residues with 0-2 decorations per residue from 15 kinds (explainable, sub-pattern, same '
                'elements / different connectivity, placement that must be undone, two on one residue, unexplainable), bridges over two / three residues, two '
-               'bridges on one pair / sharing a residue, two chains, against a random subset and order of 11 modification templates; requested: residues with '
+               'bridges on one pair / sharing a residue, two chains, against a random subset and order of 12 modification templates; requested: residues with '
                '1-2 `modification` requests taken through the real RepairGraph; real: the martinize2 front end on shipped structures with the charmm '
                'modifications. Non-trivial = at least one group of extra atoms; distinct by (molecule entering CanonicalizeModifications, templates).')
     ev.assumptions = ['every template has at least one added (PTM) atom and unique atom names',
@@ -497,34 +597,52 @@ def run(tier, seed, ev, vd):
     with mp.Pool(tlc.NCPU) as pool:
         parts = pool.map(_run_chunk, jobs)
     events = [e for p in parts for e in p]
-    stats = judge_events(events, ev, vd)
-    rstats = judge_events(real_events, ev, vd, nshards=min(tlc.NCPU, max(1, len(real_events))))
-    ev.extra['synthetic_and_requested'] = stats
-    ev.extra['real'] = rstats
+    res = tlc.run('PTMSmall', 'SPECIFICATION Spec\nCONSTANTS K = %d\nNT = %d\n' % (2 if tier == 'quick' else 3, len(SMALL_POOL)), dump=True)
+    ev.add_tlc('MC PTMSmall (input domain)', res)
+    ev.exhaustive = True                             # the small-scope domain is enumerated completely; the other families are samples
+    inputs = [st['inp'] for st in res.states()]
+    if len(inputs) != res.distinct or not inputs:
+        raise tlc.MachineryError('PTMSmall: %d states dumped, %d found' % (len(inputs), res.distinct))
+    allstats = {}
+    with mp.Pool(tlc.NCPU) as pool:
+        for d, g, sms in pool.imap_unordered(_small_job, common.chunks(inputs, max(tlc.NCPU, len(inputs) // 1500))):
+            ev.states += d
+            ev.transitions += g
+            for sm in sms:
+                _account(sm, allstats, ev, vd)
+    judge_events(events + real_events, ev, vd, allstats=allstats)
+    for fam in ('small', 'synthetic', 'requested', 'real'):
+        allstats.setdefault(fam, _new_stats())
+        ev.extra[fam] = allstats[fam] if fam != 'small' else {k: v for k, v in allstats[fam].items() if k != 'decorations'}
+    ev.extra['small']['inputs'] = len(inputs)
     ev.extra['real_features'] = feats = _real_features(real_events)
     ev.extra['real_cases_not_run'] = problems
     ev.tlc_runs.append({'run': 'TRACE Trace_PTM', 'events': len(events) + len(real_events)})
     # vacuity (only meaningful when nothing was rejected: a rejected run explains a family that is missing)
     if vd.violations:
         return
-    if stats['groups_identified'] == 0 or stats['groups_removed'] == 0:
-        raise tlc.MachineryError('vacuous: %s' % {k: stats[k] for k in ('groups_identified', 'groups_removed')})
-    dec = stats['decorations']
-    for k in ('tri-bridge', 'bridge-same-pair', 'bridges-sharing-a-residue', 'po3', 'oh-oph', 'oh-twice', 'ring', 'same-number-other-chain', 'same-number-other-icode', 'unrecognised-next-to-request'):
-        if not dec.get(k):
+    syn, rq, sm = allstats['synthetic'], allstats['requested'], allstats['small']
+    for fam in ('synthetic', 'requested', 'small', 'real'):
+        if allstats[fam]['groups_identified'] == 0 or allstats[fam]['groups_removed'] == 0:
+            raise tlc.MachineryError('vacuous: %s family: %s' % (fam, {k: allstats[fam][k] for k in ('groups_identified', 'groups_removed')}))
+    for nm in [t['name'] for t in SMALL_POOL]:
+        if not sm['identified'].get(nm):
+            raise tlc.MachineryError('vacuous: small scope never had %s identified' % nm)
+    for k in ('tri-bridge', 'bridge-same-pair', 'bridges-sharing-a-residue', 'po3', 'oh-oph', 'oh-twice', 'ring', 'thiol', 'same-number-other-chain', 'same-number-other-icode'):
+        if not syn['decorations'].get(k):
             raise tlc.MachineryError('vacuous: family %r never generated' % k)
-    ident = stats['identified_by_family']
-    for fam, names in (('synthetic', ['TRI', 'ABRIDGE', 'BRIDGE', 'PO3', 'DIOL', 'OPH', 'OH', 'CTER']),
-                       ('requested', ['PHOS (requested)', 'CTER (requested)', 'NME (requested)', 'OH (requested)', 'PO3 (requested)'])):
+    for st_, fam, names in ((syn, 'synthetic', ['TRI', 'ABRIDGE', 'BRIDGE', 'PO3', 'DIOL', 'OPH', 'OH', 'CTER', 'THIOL']),
+                            (rq, 'requested', ['PHOS (requested)', 'CTER (requested)', 'NME (requested)', 'OH (requested)', 'PO3 (requested)'])):
         for nm in names:
-            if not ident.get(fam, {}).get(nm):
+            if not st_['identified'].get(nm):
                 raise tlc.MachineryError('vacuous: %s family never had %s identified' % (fam, nm))
+    dec = rq['decorations']
+    if not dec.get('unrecognised-next-to-request') or rq['runs_with_atoms_dropped_by_request'] == 0:
+        raise tlc.MachineryError('vacuous: RepairGraph never dropped an atom next to a request')
     if not any(k.startswith('request-') and k.endswith('-absent') for k in dec) or not any(k.endswith('-partial') for k in dec):
         raise tlc.MachineryError('vacuous: no requested modification whose atoms had to be rebuilt')
-    if stats['runs_with_atoms_dropped_by_request'] == 0:
-        raise tlc.MachineryError('vacuous: RepairGraph never dropped an atom next to a request')
-    if sum(stats['unjudged'].values()) > 0.2 * n_req:
-        raise tlc.MachineryError('too many requested runs outside the specification: %s' % stats['unjudged'])
+    if sum(rq['unjudged'].values()) > 0.2 * n_req:
+        raise tlc.MachineryError('too many requested runs outside the specification: %s' % rq['unjudged'])
     if len(problems) > (0 if tier == 'quick' else 2):
         raise tlc.MachineryError('real cases that did not run: %s' % problems)
     for k in REAL_MUST + (REAL_MUST_THOROUGH if tier != 'quick' else []):
@@ -541,21 +659,35 @@ def run(tier, seed, ev, vd):
 
 
 def replay(sc):
-    if 'case' in sc.get('scenario', {}):
-        kind, val = R._case_child(sc['scenario']['case'])
+    scen = sc.get('scenario', {})
+    if 'case' in scen:
+        R._load()
+        kind, val = R._case_child(scen['case'])
         events = val if kind == 'ok' else []
         print(kind, val if kind != 'ok' else '')
+    elif 'gen' in scen:
+        mol_d, tnames = scen['gen']
+        tdict = {t['name']: t for t in TEMPLATES + SMALL_POOL}
+        for n in mol_d['nodes']:
+            n['id'] = int(n['id'])
+        e = run_real(mol_d, [tdict[n] for n in tnames], repair=(sc.get('family') == 'requested'))
+        e.update({'family': sc.get('family', 'synthetic'), 'used': sc.get('used', []), 'tnames': tnames, 'scenario': scen})
+        events = [e]
     else:
-        print('synthetic scenario (seeded generator): decorations %s templates %s' % (sc.get('used'), sc.get('tnames')))
         events = []
     ev = common.Evidence(PID, 'quick', 0)
     vd = common.Verdicts(PID, ev)
     if events:
         judge_events(events, ev, vd, nshards=1)
+    import os
+    for k, p, d in vd.violations:
+        os.path.exists(p) and os.remove(p)
     for e in events:
-        print('molecule %d: %s' % (e['scenario']['molecule'], e['verdict']))
-    print({k: sc.get(k) for k in ('used', 'calls', 'warnings', 'verdict', 'dropped')})
-    return 1 if vd.violations else 0
+        print('%s %s molecule %s: %s' % (e['family'], e['used'], e['scenario'].get('molecule', 0), e['verdict']))
+        for c in e['calls']:
+            print('   %s %s -> %s' % (c['outcome'], [(p['atoms'], p['anchors']) for p in c['ptms']], [(e['templates'][x['t'] - 1]['name'], x['match']) for x in c['cover']]))
+        print('   warnings %d, dropped by request %s' % (e['warnings'], [(d['resid'], d['name']) for d in e['dropped']]))
+    return 1 if any(e['verdict'] != 'ok' and not e['verdict'].startswith('unjudged') for e in events) else 0
 
 
 def selftest(seed):
@@ -588,6 +720,44 @@ def selftest(seed):
                 for a in (atoms[2], atoms[3]):
                     b['final'][a - 1]['attrs'] = [['atomname', 's:OGX']]
     bad.append(('OH twice instead of DIOL', b))
+    b = copy.deepcopy(next(e for e in events if any(c['outcome'] == 'unknown' for c in e['calls'])))          # the atoms of an unknown group kept
+    for c in b['calls']:
+        if c['outcome'] == 'unknown':
+            for p_ in c['ptms']:
+                for a in p_['atoms']:
+                    b['final'][a - 1] = {'present': True, 'labels': [], 'attrs': b['mol']['nodes'][a - 1]['attrs']}
+    bad.append(('unknown atoms kept', b))
+    b = copy.deepcopy(next(e for e in events if all(c['outcome'] == 'identified' for c in e['calls'])))           # a warning although nothing was removed
+    b['warnings'] = 1
+    bad.append(('warning without removal', b))
+    more = [e for e in _run_chunk((400, seed + 7, 'synthetic')) if not e['err']]
+
+    def tix(e, name):
+        return 1 + e['tnames'].index(name)
+    src = next(e for e in more if 'bridge' in e['used'] and 'THIOL' in e['tnames'] and any(s_['t'] == tix(e, 'BRIDGE') for c in e['calls'] for s_ in c['cover'])
+               if 'BRIDGE' in e['tnames'])
+    b = copy.deepcopy(src)                                # a bridge explained from one side only: the second anchor is not covered
+    for c in b['calls']:
+        for s_ in c['cover']:
+            if s_['t'] == tix(b, 'BRIDGE'):
+                atoms = {k: a for a, k in s_['match']}
+                s_['t'], s_['match'] = tix(b, 'THIOL'), [[atoms[1], 1], [atoms[3], 2]]
+    bad.append(('bridge covered from one side', b))
+    src = next(e for e in more if 'ring' in e['used'] and {'OH', 'PO', 'OPH'} <= set(e['tnames'])
+               and any(s_['t'] == tix(e, 'PO') for c in e['calls'] for s_ in c['cover']) and any(s_['t'] == tix(e, 'OH') for c in e['calls'] for s_ in c['cover']))
+    b = copy.deepcopy(src)                                # OPH placed on the ring CB-O-P-CB: a subgraph, not an induced one
+    for c in b['calls']:
+        oh = [s_ for s_ in c['cover'] if s_['t'] == tix(b, 'OH')]
+        po = [s_ for s_ in c['cover'] if s_['t'] == tix(b, 'PO')]
+        adj = b['mol']['adj']
+        for x in oh:
+            for y in po:
+                o = next(a for a, k in x['match'] if k == 2)
+                ph = next(a for a, k in y['match'] if k == 2)
+                cb = next(a for a, k in x['match'] if k == 1)
+                if ph in adj[o - 1]:
+                    c['cover'] = [s_ for s_ in c['cover'] if s_ is not x and s_ is not y] + [{'t': tix(b, 'OPH'), 'match': [[cb, 1], [o, 2], [ph, 3]]}]
+    bad.append(('placement that is not induced', b))
     req = [e for e in _run_chunk((60, seed + 1, 'requested')) if not e['err'] and any(n['mods'] and n['ptm'] for n in e['mol']['nodes'])]
     good2 = req[0]
     b = copy.deepcopy(req[1])                             # an atom of a requested modification removed
